@@ -2,13 +2,16 @@ package scen
 
 import (
 	"encoding/json"
+	"fmt"
+
+	"simlal/sim/media"
 
 	"simlal/sim"
 )
 
 func relayProfileC02(tier string) RelayProfile {
 	p := RelayProfile{
-		Protos:         []string{"rtmp", "flv", "wsflv", "rtmp", "flv"},
+		Protos:         []string{"rtmp", "flv", "wsflv", "rtmp", "flv", "ts", "wsts", "rtsp"},
 		MaxUnits:       70,
 		MaxCons:        5,
 		Republish:      0.4,
@@ -29,11 +32,110 @@ func relayProfileC02(tier string) RelayProfile {
 	return p
 }
 
+// checkC02TsRtsp: the "decodable from the first byte" clauses for HTTP-TS and RTSP consumers: PAT/PMT before any
+// elementary-stream packet, the SDP before any RTP, and - when the stream carries video - a key frame first.
+func checkC02TsRtsp(k *sim.Kernel, rr *RelayRun) {
+	for ci, c := range rr.Cons {
+		if !c.Joined {
+			continue
+		}
+		name := fmt.Sprintf("cons%d(%s)", ci, c.Plan.Proto)
+		// only streams published once: which incarnation a frame belongs to does not matter then
+		var pub *PubState
+		npub := 0
+		for _, p := range rr.Pubs {
+			if p.Plan.Stream == c.Plan.Stream && p.Actor != nil {
+				pub = p
+				npub++
+			}
+		}
+		if npub != 1 {
+			continue
+		}
+		hevc := pub.Plan.VideoCodec == media.CodecHEVC
+		isKeyNal := func(n []byte) bool {
+			if hevc {
+				t := (n[0] >> 1) & 0x3f
+				return len(n) > 1 && t >= 16 && t <= 23
+			}
+			return len(n) > 0 && n[0]&0x1f == 5
+		}
+		// the publisher's own first video frame (lal assumes publishers start at a key frame: known finding of C02)
+		firstOwn := -1
+		for i := range pub.Units {
+			if pub.Units[i].Kind == media.KVideo && len(pub.Units[i].Nals) > 0 {
+				firstOwn = i
+				break
+			}
+		}
+		ownStartsNonKey := firstOwn >= 0 && !pub.Units[firstOwn].Key
+		switch {
+		case c.Http != nil && (c.Plan.Proto == "ts" || c.Plan.Proto == "wsts") && len(c.Http.TsBytes) >= 188:
+			tc := ParseTs(c.Http.TsBytes)
+			if tc.D.DataBeforePsi >= 0 {
+				k.Violate("C02.ts-no-psi", "%s: elementary stream packet %d precedes PAT/PMT", name, tc.D.DataBeforePsi)
+			}
+			if len(tc.Video) > 0 {
+				key := false
+				for _, n := range tc.Video[0].Nals {
+					key = key || isKeyNal(n)
+				}
+				if !key && !ownStartsNonKey {
+					k.Violate("C02.first-video-not-key", "%s: the first video frame in the TS stream (packet %d, %d NAL units, first NAL byte %02x) is not a key frame", name, tc.Video[0].Pkt, len(tc.Video[0].Nals), firstByte(tc.Video[0].Nals))
+				}
+				if key && len(tc.Video[0].Params) == 0 {
+					k.Violate("C02.no-header", "%s: the first key frame in the TS stream carries no parameter sets", name)
+				}
+				k.Probe("c02_ts_starts_judged")
+				k.Probe("nontrivial")
+			}
+		case c.Rtsp != nil && len(c.Rtsp.Rtp) > 0:
+			if !c.Rtsp.DescribeOK || c.Rtsp.SdpRecv == "" {
+				k.Violate("C02.rtsp-no-sdp", "%s: RTP arrived without a stream description", name)
+			}
+			rc := ParseRtspSession(c.Rtsp)
+			if len(rc.Video) > 0 {
+				if !isKeyNal(rc.Video[0].Data) && !ownStartsNonKey {
+					// parameter sets / SEI may precede the slice: look at the first slice NAL
+					first := rc.Video[0].Data
+					for _, u := range rc.Video {
+						t := u.Data[0] & 0x1f
+						if hevc {
+							t = (u.Data[0] >> 1) & 0x3f
+						}
+						if (!hevc && (t == 1 || t == 5)) || (hevc && t <= 23) {
+							first = u.Data
+							break
+						}
+					}
+					if !isKeyNal(first) {
+						k.Violate("C02.first-video-not-key", "%s: the first video slice received over RTP (NAL byte %02x) is not part of a key frame although out_wait_key_frame_flag is on", name, first[0])
+					}
+				}
+				k.Probe("c02_rtsp_starts_judged")
+				k.Probe("nontrivial")
+			}
+		}
+	}
+}
+
+func firstByte(n [][]byte) byte {
+	if len(n) > 0 && len(n[0]) > 0 {
+		return n[0][0]
+	}
+	return 0
+}
+
 func init() {
 	Register(&Check{
 		ID: "C02",
 		Gen: func(r *sim.Rng, tier string) json.RawMessage {
-			return mustJSON(GenRelayPlan(r, relayProfileC02(tier)))
+			pl := GenRelayPlan(r, relayProfileC02(tier))
+			pl.Conf.TsEnable = true
+			pl.Conf.TsGop = r.Intn(3)
+			pl.Conf.RtspEnable = true
+			pl.Conf.RtspWaitKey = true // with out_wait_key_frame_flag off lal forwards RTP from any frame by configuration
+			return mustJSON(pl)
 		},
 		Sched: relaySched,
 		Run: func(k *sim.Kernel, plan json.RawMessage) {
@@ -41,6 +143,7 @@ func init() {
 			fromJSON(plan, &pl)
 			rr := ExecRelay(k, pl)
 			CheckC02(k, rr)
+			checkC02TsRtsp(k, rr)
 		},
 		Shrink: relayShrink,
 		Shape:  relayShape,
